@@ -5,6 +5,8 @@
 //   band <path> <dim> <band> <Q…>       -> hdr <dim> <band> / flt <tokens as printed> / mat <hex doubles, dim*dim>
 //                                          (Q operands are for the model; the harness reads <path>)
 //   index <path> <model operands…>      -> reader <indexes handed out> / orig <original-index list>
+//   points <path> <fixed|approximate|adjusted> <model operands…>
+//                                       -> pt <idhex> hxy hz cxy cz <x y z hex> indx indy indz  per point / end
 //   read <path>   | readhtml <path>     -> field-by-field dump of LocalNetworkAdjustmentResultsData
 //
 // strings cross the protocol hex-encoded (`-` = empty), doubles as 0x + 16 hex digits.
@@ -96,6 +98,15 @@ int main() {
       std::cout << "\norig";
       for (size_t i = 1; i < adj.original_index.size(); i++) std::cout << " " << adj.original_index[i];
       std::cout << "\n";
+    } else if (t[0] == "points" && t.size() >= 3) {
+      LocalNetworkAdjustmentResults adj;
+      if (!load(t[1], adj)) continue;
+      const auto& pl = t[2] == "fixed" ? adj.fixed_points : t[2] == "adjusted" ? adj.adjusted_points : adj.approximate_points;
+      for (const auto& p : pl)
+        std::cout << "pt " << hexs(p.id) << " " << p.hxy << " " << p.hz << " " << p.cxy << " " << p.cz << " "
+                  << vp::hex(p.x) << " " << vp::hex(p.y) << " " << vp::hex(p.z) << " "
+                  << p.indx << " " << p.indy << " " << p.indz << "\n";
+      std::cout << "end\n";
     } else if ((t[0] == "read" || t[0] == "readhtml") && t.size() == 2) {
       LocalNetworkAdjustmentResults adj;
       if (!load(t[1], adj, t[0] == "readhtml")) continue;
